@@ -10,7 +10,7 @@ from sx.fsmodel import FS
 
 PROPERTY = "C16"
 BOUNDS = {
-    "quick": "real asyncio loop in virtual time; exit moment k sym [0,12] loop turns after entry (every file operation of the model is a suspension point, so k lands before the saver first runs, inside each operation of a save, and in its sleep); body ends normally or raises; fault bits: connect fails (with a transport error, or - stub transport - interrupted by CancelledError), disconnect fails; transport kinds: stub, TCPTransport and SerialTransport on fake reader/writer, MQTTClient on a fake broker client; virtual durations D in {0,1,899,900,901,1800,2700} s; persistence file present (2 nodes) or missing",
+    "quick": "real asyncio loop in virtual time; exit moment k sym [0,12] loop turns after entry (every file operation of the model is a suspension point, so k lands before the saver first runs, inside each operation of a save, and in its sleep); body ends normally or raises; fault bits: connect fails (with a transport error, or - stub transport - interrupted by CancelledError), disconnect fails; transport kinds: stub, TCPTransport and SerialTransport on fake reader/writer, MQTTClient on a fake broker client; virtual durations D in {0,1,899,900,901,1800,2700} s in a first or a second session of the same gateway object; stub transport whose connect/disconnect suspend or not; persistence file present (2 nodes) or missing",
     "thorough": "k sym [0,20], D additionally {3599,3600,9000}",
 }
 REALISED = ["k and D are forked into concrete values (each is one path)"]
@@ -26,16 +26,18 @@ class BodyError(Exception):
 
 
 class LifeTransport:
-    def __init__(self, connect_fault=False, disconnect_fault=False):
+    def __init__(self, connect_fault=False, disconnect_fault=False, suspend=True):
         self.connect_fault = connect_fault
         self.disconnect_fault = disconnect_fault
+        self.suspend = suspend  # an in-memory transport may connect / disconnect without ever suspending
         self.connected = False
         self.disconnect_calls = 0
 
     async def connect(self):
         from aiomysensors.exceptions import TransportError
 
-        await asyncio.sleep(0)
+        if self.suspend:
+            await asyncio.sleep(0)
         if self.connect_fault == "cancel":
             raise asyncio.CancelledError()  # connect interrupted by a cancellation / timeout
         if self.connect_fault:
@@ -46,7 +48,8 @@ class LifeTransport:
         from aiomysensors.exceptions import TransportError
 
         self.disconnect_calls += 1
-        await asyncio.sleep(0)
+        if self.suspend:
+            await asyncio.sleep(0)
         self.connected = False
         if self.disconnect_fault:
             raise TransportError("injected disconnect fault")
@@ -82,9 +85,9 @@ class FakeWriter:
             raise OSError(104, "Connection reset by peer")
 
 
-def make_transport(kind, connect_fault, disconnect_fault):
+def make_transport(kind, connect_fault, disconnect_fault, suspend=True):
     if kind == "stub":
-        return LifeTransport(connect_fault, disconnect_fault), None
+        return LifeTransport(connect_fault, disconnect_fault, suspend), None
     if kind in ("tcp", "serial"):
         writer = FakeWriter(disconnect_fault)
 
@@ -119,8 +122,10 @@ def partitions(tier):
     parts = []
     for kind in ("stub", "tcp", "serial", "mqtt"):
         for missing in ((0, 1) if kind == "stub" else (0,)):
-            parts.append({"name": "exit-%s%s" % (kind, "-nofile" if missing else ""), "fn": "sym_exit", "kind": kind, "missing": missing,
+            parts.append({"name": "exit-%s%s" % (kind, "-nofile" if missing else ""), "fn": "sym_exit", "kind": kind, "missing": missing, "suspend": True,
                           "kmax": 12 if q else 20, "budget": 600 if q else 2400, "cost": 6})
+    parts.append({"name": "exit-stub-nosuspend", "fn": "sym_exit", "kind": "stub", "missing": 0, "suspend": False,
+                  "kmax": 12 if q else 20, "budget": 600 if q else 2400, "cost": 6})
     parts.append({"name": "cadence", "fn": "sym_cadence", "durations": [0, 1, 899, 900, 901, 1800, 2700] + ([] if q else [3599, 3600, 9000]),
                   "budget": 600, "cost": 4})
     return parts
@@ -169,7 +174,8 @@ def sym_exit(inp, part):
     body_raises = bool(body_raises)
     fs = FS(_initial_files(part["missing"]), yielder=_yield)
     wire(fs, False)
-    tr, restore = make_transport(kind, connect_fault, disconnect_fault)
+    suspend = part.get("suspend", True)
+    tr, restore = make_transport(kind, connect_fault, disconnect_fault, suspend)
     state = {}
 
     async def main():
@@ -255,6 +261,7 @@ def sym_cadence(inp, part):
     from aiomysensors.model.node import Node
 
     D = part["durations"][inp.pick("D", len(part["durations"]))]
+    second_session = bool(inp.bool("second_session"))
     fs = FS(_initial_files(0), yielder=_yield)
     wire(fs, False)
     tr = LifeTransport()
@@ -263,6 +270,11 @@ def sym_cadence(inp, part):
     async def main():
         gw = Gateway(tr, Config(persistence_file=PATH))
         state["gw"] = gw
+        if second_session:
+            # the same gateway object is entered, left and entered again (a reconnect)
+            async with gw:
+                await asyncio.sleep(1)
+            del fs.ops[:]
         async with gw:
             await asyncio.sleep(0)
             gw.nodes[5] = Node(5, 17, "2.0")
